@@ -11,6 +11,9 @@ use hypercore::{Hypercore, HypercoreError, Proof, RequestBlock, RequestSeek, Req
 use serde_json::{json, Value};
 use std::sync::{Arc, Mutex};
 
+/// coverage: block + seek requests whose seek position lies in another block of the proven sub-tree
+pub static SEEKS_ELSEWHERE_IN_SUBTREE: std::sync::atomic::AtomicU64 = std::sync::atomic::AtomicU64::new(0);
+
 #[derive(Clone, Debug, PartialEq, Default)]
 pub struct Plan {
     pub block: Option<u64>,
@@ -19,11 +22,14 @@ pub struct Plan {
     pub seek: Option<u64>,
     /// upgrade length (start is always the replica's length)
     pub upgrade: Option<u64>,
+    /// with a block: choose the seek position anywhere inside the sub-tree spanned by the proof
+    /// (W5), this value modulo the sub-tree's byte size; `seek` is the fallback
+    pub seek_sub: Option<u64>,
 }
 
 impl Plan {
     pub fn to_json(&self) -> Value {
-        json!({"block": self.block, "hash": self.hash, "seek": self.seek, "upgrade": self.upgrade})
+        json!({"block": self.block, "hash": self.hash, "seek": self.seek, "upgrade": self.upgrade, "seek_sub": self.seek_sub})
     }
     pub fn from_json(v: &Value) -> Plan {
         Plan {
@@ -31,6 +37,7 @@ impl Plan {
             hash: v["hash"].as_u64(),
             seek: v["seek"].as_u64(),
             upgrade: v["upgrade"].as_u64(),
+            seek_sub: v["seek_sub"].as_u64(),
         }
     }
 }
@@ -106,6 +113,24 @@ impl Replica {
                 Err(p) => return Err(fail(format!("missing_nodes:panic:{}", exec::panic_sig(&p)), p)),
             };
             req.block = Some(RequestBlock { index: i, nodes: n });
+            if let (Some(f), true) = (plan.seek_sub, plan.upgrade.is_none() || i < len) {
+                // ancestor of leaf 2i, n levels up: leaves [lo, hi]
+                let w = 1u64 << n.min(40);
+                let lo = i / w * w;
+                let hi = lo + w - 1;
+                if hi < len && (hi as usize) < self.model.sizes.len() {
+                    let start: u64 = self.model.sizes[..lo as usize].iter().sum();
+                    let size: u64 = self.model.sizes[lo as usize..=hi as usize].iter().sum();
+                    if size > 0 {
+                        let pos = start + f % size;
+                        let own: u64 = self.model.sizes[..i as usize].iter().sum();
+                        if pos < own || pos >= own + self.model.sizes[i as usize] {
+                            SEEKS_ELSEWHERE_IN_SUBTREE.fetch_add(1, std::sync::atomic::Ordering::Relaxed);
+                        }
+                        req.seek = Some(RequestSeek { bytes: pos });
+                    }
+                }
+            }
         }
         if let Some(j) = plan.hash {
             let n = match exec::call(self.core().missing_nodes_from_merkle_tree_index(j)) {
@@ -359,6 +384,12 @@ pub fn random_plan(r: &mut Rng, rl: u64, wl: u64, w: &Model, rm: &Model) -> Plan
                 // of its own, so no seek is combined with it
                 if sz > 0 {
                     p.seek = Some(off + r.below(sz));
+                }
+                // half of the time the seek may land anywhere in the sub-tree that the proof
+                // spans (the block's ancestor as many levels up as the replica misses nodes),
+                // resolved in make_request, where that count is known
+                if r.chance(1, 2) {
+                    p.seek_sub = Some(r.next_u64() >> 1);
                 }
             }
         }
